@@ -408,6 +408,11 @@ func (n *Node) Close() {
 		current = nil
 	}
 	blockchain.DefaultLedger = nil
+	// events.Subscribe has no counterpart: without this every State ever created (and all it
+	// references, ~0.7 MB per node) stays reachable through its callback
+	// (hook events/export_verif_c06.go)
+	events.VerifResetSubscribers()
+	events.Subscribe(dispatch)
 }
 
 // ---------------------------------------------------------------------------------------------
